@@ -53,3 +53,43 @@ double fracrevbits(uint32_t i) {
 uint64_t ceilto64b(uint64_t size) { return (size + UINT64_C(63)) & (UINT64_C(-64)); }
 
 uint64_t ceilto32b(uint64_t size) { return (size + UINT64_C(31)) & (UINT64_C(-32)); }
+
+#ifdef SPQLIOS_VERIF
+#include <string.h>
+static uint32_t verif_cpu_deny_mask = 0;
+static int64_t* verif_ev = 0;
+static uint64_t verif_ev_cap = 0;
+static uint64_t verif_ev_n = 0;
+static __thread int64_t verif_tid = 0;
+
+EXPORT int spqlios_verif_cpu_allows(const char* feature) {
+  uint32_t bit = 8;
+  if (!strcmp(feature, "avx2")) bit = 1;
+  else if (!strcmp(feature, "fma")) bit = 2;
+  else if (!strncmp(feature, "avx512", 6)) bit = 4;
+  return (verif_cpu_deny_mask & bit) == 0;
+}
+EXPORT void spqlios_verif_set_cpu_mask(uint32_t deny_mask) { verif_cpu_deny_mask = deny_mask; }
+EXPORT void spqlios_verif_events_enable(uint64_t capacity) {
+  free(verif_ev);
+  verif_ev = capacity ? (int64_t*)malloc(capacity * 8 * sizeof(int64_t)) : 0;
+  verif_ev_cap = verif_ev ? capacity : 0;
+  verif_ev_n = 0;
+}
+EXPORT uint64_t spqlios_verif_events_count(void) {
+  uint64_t n = __atomic_load_n(&verif_ev_n, __ATOMIC_SEQ_CST);
+  return n < verif_ev_cap ? n : verif_ev_cap;
+}
+EXPORT const int64_t* spqlios_verif_events_data(void) { return verif_ev; }
+EXPORT void spqlios_verif_events_clear(void) { __atomic_store_n(&verif_ev_n, 0, __ATOMIC_SEQ_CST); }
+EXPORT void spqlios_verif_set_tid(int64_t tid) { verif_tid = tid; }
+EXPORT void spqlios_verif_event(int64_t kind, int64_t a0, int64_t a1, int64_t a2, int64_t a3, int64_t a4) {
+  if (!verif_ev_cap) return;
+  // the global sequence number is the slot index: one atomic fetch-add taken inside the hook
+  uint64_t seq = __atomic_fetch_add(&verif_ev_n, 1, __ATOMIC_SEQ_CST);
+  if (seq >= verif_ev_cap) return;
+  int64_t* r = verif_ev + 8 * seq;
+  r[0] = kind; r[1] = verif_tid; r[2] = (int64_t)seq;
+  r[3] = a0; r[4] = a1; r[5] = a2; r[6] = a3; r[7] = a4;
+}
+#endif
